@@ -238,6 +238,8 @@ func (c *Decoder) decodeIfStatement() (*ast.IfStatement, error) {
 				return nil, errors.WithStack(err)
 			}
 			stmt.Another = append(stmt.Another, another)
+		default:
+			return nil, typeMismatch(IF_STATEMENT, frame.Type())
 		}
 	}
 ANOTHER_END:
